@@ -71,6 +71,7 @@ def tokenize(text):
     return res
 
 
+TYPE_ALIAS = {}     # generic parameter -> concrete type (from the spec)
 INT_TYPES = {'u8': 8, 'u16': 16, 'u32': 32, 'u64': 64, 'usize': 64}
 
 
@@ -111,14 +112,16 @@ class P:
             ts = [self.ty()]
             while self.eat(','): ts.append(self.ty())
             self.expect(')')
-            return ('tuple', ts)
+            return ('tuple', tuple(ts)) if len(ts) > 1 else ts[0]
         if self.eat('['):
             t = self.ty()
             if self.eat(';'): self.expr()
             self.expect(']')
             return 'bytes' if t == 'u8' else ('slice', t)
         if self.eat('impl') or self.eat('dyn'):
-            self.ty_path(); return 'opaque'
+            self.ty_path()
+            while self.eat('+'): self.ty_path()
+            return 'opaque'
         return self.ty_path()
 
     def ty_path(self):
@@ -146,6 +149,7 @@ class P:
         if name == 'RangeInclusive': return ('range', args[0]) if args else 'opaque'
         if name == 'ChunksExact': return 'chunks'
         if name == 'Self': return ('struct', 'Self')
+        if name in TYPE_ALIAS: return ('struct', TYPE_ALIAS[name])
         return ('struct', name)
 
     # ------------------------------------------------------------------ expressions
@@ -302,7 +306,7 @@ class P:
                 return ('macro', path[-1], self.t[start:self.i - 1])
             if self.at('('):
                 return ('call', path, self.args())
-            if self.at('{') and not nostruct and path[-1][0].isupper() and self.peek(1)[0] == 'id' and self.peek(2)[1] in (':', ',', '}'):
+            if self.at('{') and not nostruct and path[-1][0].isupper() and (self.peek(1)[1] == '}' or (self.peek(1)[0] == 'id' and self.peek(2)[1] in (':', ',', '}'))):
                 self.next(); fs = []
                 while not self.at('}'):
                     f = self.ident()
@@ -426,6 +430,7 @@ class Items:
         self.enums = {}      # name -> [variant]
         self.consts = {}     # qualified name -> (ty, expr)
         self.fns = {}        # qualified name -> dict(params, ret, body, selfkind, owner)
+        self.in_trait = False
 
     def scan(self, toks, owner=None):
         p = P(toks)
@@ -462,7 +467,8 @@ class Items:
             while not p.at('}'):
                 if p.eat('pub'):
                     if p.at('('): p.skip_balanced('(', ')')
-                f = p.ident(); p.expect(':'); fs.append((f, p.ty()))
+                f = p.ident(); p.expect(':'); ft = p.ty()
+                if ft != ('struct', 'PhantomData'): fs.append((f, ft))
                 if not p.eat(','): break
             p.expect('}')
             self.structs[name] = fs; return
@@ -477,6 +483,8 @@ class Items:
                         payload.append(p.ty())
                         if not p.eat(','): break
                     p.expect(')')
+                if p.at('{'):
+                    p.skip_balanced('{', '}'); payload = ['struct-like']
                 if p.eat('='): p.expr()
                 vs.append((vn, payload))
                 if not p.eat(','): break
@@ -486,13 +494,16 @@ class Items:
             p.next()
             if p.at('<'): p.skip_balanced('<', '>')
             t1 = p.ty()
+            is_trait = False
             if p.eat('for'):
-                t1 = p.ty()
+                t1 = p.ty(); is_trait = True
             if p.at('where'):
                 while not p.at('{'): p.next()
             name = t1[1] if isinstance(t1, tuple) else str(t1)
             start = p.i; p.skip_balanced('{', '}')
+            prev = self.in_trait; self.in_trait = is_trait
             self.scan(p.t[start + 1:p.i - 1], name)
+            self.in_trait = prev
             return
         if v == 'trait':
             while not p.at('{'): p.next()
@@ -513,7 +524,10 @@ class Items:
             while not p.eat(';'): p.next()
             return
         if v in ('fn', 'const', 'unsafe', 'async'):
-            while p.peek()[1] in ('const', 'unsafe', 'async'): p.next()
+            is_const = False
+            while p.peek()[1] in ('const', 'unsafe', 'async'):
+                if p.peek()[1] == 'const': is_const = True
+                p.next()
             p.expect('fn'); name = p.ident()
             if p.at('<'): p.skip_balanced('<', '>')
             p.expect('('); params = []; selfkind = None
@@ -538,7 +552,11 @@ class Items:
             if p.eat(';'): return
             start = p.i; p.skip_balanced('{', '}')
             q = (owner + '::' if owner else '') + name
-            self.fns[q] = dict(params=params, ret=ret, toks=p.t[start:p.i], selfkind=selfkind, owner=owner, name=name)
+            # Rust resolves `x.m()` to an inherent method before a trait method of the same name
+            if self.in_trait and q in self.fns and not self.fns[q]['trait']:
+                return
+            self.fns[q] = dict(params=params, ret=ret, toks=p.t[start:p.i], selfkind=selfkind, owner=owner, name=name,
+                               trait=self.in_trait, const=is_const)
             return
         if v == 'macro_rules':
             p.next(); p.next(); p.ident(); p.skip_balanced('{', '}'); return
@@ -586,7 +604,7 @@ class Tr:
         return f'(({s}) % 2^{w})'
 
     def lean_ty(self, ty, self_ty=None):
-        if ty in INT_TYPES or ty == 'lit': return 'Nat'
+        if isinstance(ty, str) and (ty in INT_TYPES or ty == 'lit'): return 'Nat'
         if ty == 'bool': return 'Bool'
         if ty == 'bytes': return 'Bytes'
         if ty == 'string': return 'Rs.Str'
@@ -697,8 +715,10 @@ class Tr:
             fs = dict(self.it.structs.get(sn, []))
             parts = []
             for f, fe in e[2]:
-                s, _ = self.ex(fe, env, fs.get(f))
+                if f not in fs: continue          # PhantomData
+                s, _ = self.ex(fe, env, fs.get(f) if isinstance(fs.get(f), str) else None)
                 parts.append(f'{self.fld(f)} := {s}')
+            if not parts: return f'({{}} : {sn})', ('struct', sn)
             return '{ ' + ', '.join(parts) + f' : {sn} }}', ('struct', sn)
         if k == 'tuple':
             parts = [self.ex(x, env) for x in e[1]]
@@ -1077,6 +1097,9 @@ class Tr:
         if not ss:
             return '()', 'unit'
         st, rest = ss[0], ss[1:]
+        pre = self.prepass(st, env)
+        if pre is not None:
+            return self.stmts(pre + rest, env, expect)
         if st[0] == 'let':
             pat, ty, e = st[1], st[2], st[3]
             if e[0] == 'try':
@@ -1110,6 +1133,10 @@ class Tr:
                 return self.stmts(rest, env, expect) if rest else ('()', 'unit')
             if e[1] in ('unreachable', 'panic', 'todo', 'unimplemented'):
                 raise TranslateError(e[1] + '! reached')
+        if e[0] == 'if' and env.get('const_fn') and e[3] is None and len(e[2]) == 1 and e[2][0][0] == 'expr' \
+                and e[2][0][1][0] == 'macro' and e[2][0][1][1] == 'panic':
+            # `if c { panic!(..) }` inside a `const fn` that is only evaluated at compile time: a compile-time assertion
+            return self.stmts(rest, env, expect)
         # write!(s, …).unwrap();   s.push_str(&e);   v.push(format!(…))
         w = self.string_update(e, env)
         if w is not None:
@@ -1131,6 +1158,84 @@ class Tr:
         if e[0] == 'mcall' and e[2] == 'unwrap':       # ignored results
             return self.stmts(rest, env, expect)
         raise TranslateError(f'statement not supported: {e[0]}')
+
+    def prepass(self, st, env):
+        """rewrites of one statement into several simpler ones (None = nothing to do):
+           * a `?` nested inside an expression is hoisted into its own `let t = e?;` (left-to-right order kept);
+           * a call of a `&mut self` method on a field / variable is split into the call, the write-back of the receiver
+             and the use of the result."""
+        self.tmpn = getattr(self, 'tmpn', 0)
+        new_lets = []
+
+        def hoist(e, top):
+            if not isinstance(e, tuple) or not e: return e
+            k = e[0]
+            if k in ('closure', 'if', 'match', 'block', 'macro', 'lit', 'str', 'path', 'raw'): return e
+            if k == 'try' and not top:
+                inner = hoist(e[1], False)
+                self.tmpn += 1; t = f't_{self.tmpn}'
+                new_lets.append(('let', ('pbind', t), None, ('try', inner)))
+                return ('path', [t])
+            if k == 'mcall' and not top and self.is_mut_call(e, env):
+                recv = e[1]
+                self.tmpn += 1; t = f'c_{self.tmpn}'
+                new_lets.append(('let', ('pbind', t), None, ('mutcall', e)))
+                new_lets.append(('assign', recv, '=', ('tfield', ('path', [t]), 1)))
+                return ('tfield', ('path', [t]), 0)
+            out = []
+            for x in e:
+                if isinstance(x, tuple): out.append(hoist(x, False))
+                elif isinstance(x, list):
+                    ys = []
+                    for y in x:
+                        if k == 'structlit' and isinstance(y, tuple) and len(y) == 2 and isinstance(y[0], str) and isinstance(y[1], tuple):
+                            ys.append((y[0], hoist(y[1], False)))
+                        elif isinstance(y, tuple): ys.append(hoist(y, False))
+                        else: ys.append(y)
+                    out.append(ys)
+                else: out.append(x)
+            return tuple(out)
+
+        if st[0] == 'let':
+            e = st[3]
+            if e[0] == 'mutcall': return None
+            if e[0] == 'try':
+                ne = ('try', hoist(e[1], False))
+            else:
+                ne = hoist(e, False)
+            if new_lets: return new_lets + [('let', st[1], st[2], ne)]
+            return None
+        if st[0] == 'assign':
+            ne = hoist(st[3], False)
+            if new_lets: return new_lets + [('assign', st[1], st[2], ne)]
+            return None
+        if st[0] == 'expr':
+            e = st[1]
+            if e[0] == 'if' and e[1][0] == 'iflet':
+                ns = hoist(e[1][2], False)
+                if new_lets: return new_lets + [('expr', ('if', ('iflet', e[1][1], ns), e[2], e[3]), st[2])]
+                return None
+            if e[0] == 'if':
+                nc = hoist(e[1], False)
+                if new_lets: return new_lets + [('expr', ('if', nc, e[2], e[3]), st[2])]
+                return None
+            if e[0] in ('match', 'block', 'macro'): return None
+            ne = hoist(e, e[0] in ('return',))
+            if e[0] == 'return' and e[1] is not None:
+                ne = ('return', hoist(e[1], False))
+            if new_lets: return new_lets + [('expr', ne, st[2])]
+        return None
+
+    def is_mut_call(self, e, env):
+        try:
+            _, t = self.ex(e[1], env)
+        except TranslateError:
+            return False
+        if isinstance(t, tuple) and t[0] == 'struct':
+            sn = env['owner'] if t[1] == 'Self' else t[1]
+            f = self.it.fns.get(sn + '::' + e[2])
+            return bool(f and f['selfkind'] == 'mut')
+        return False
 
     def infer_from_use(self, v, rest, env):
         """type of an un-annotated `let v = <integer literal expression>`: the type of the operand it is later combined with"""
@@ -1183,15 +1288,21 @@ class Tr:
             env2['consts'].pop(n, None)
             r, rt = self.stmts(rest, env2, expect) if rest else (self.unit_result(env2), 'unit')
             return f'(let {v} := {s}; {r})', rt
-        if tgt[0] == 'field' and tgt[1][0] == 'path' and len(tgt[1][1]) == 1:
-            n = tgt[1][1][0]
+        chain, base = [], tgt
+        while base[0] in ('field', 'tfield'):
+            chain.append(base[2] if base[0] == 'field' else str(base[2])); base = base[1]
+        if chain and base[0] == 'path' and len(base[1]) == 1:
+            chain.reverse()
+            n = base[1][0]
             cur, t = env['vars'][n]
-            sn = env['owner'] if t[1] == 'Self' else t[1]
-            ft = dict(self.it.structs[sn])[tgt[2]]
+            ft = t
+            for f in chain:
+                sn = env['owner'] if ft[1] == 'Self' else ft[1]
+                ft = dict(self.it.structs[sn])[f]
             s, _ = self.ex(e, env, ft if isinstance(ft, str) else None)
             env2 = self.fork(env); v = self.fresh(n, env2); env2['vars'][n] = (v, t)
             r, rt = self.stmts(rest, env2, expect) if rest else (self.unit_result(env2), 'unit')
-            return f'(let {v} := {{ {cur} with {self.fld(tgt[2])} := {s} }}; {r})', rt
+            return f'(let {v} := {{ {cur} with {".".join(self.fld(f) for f in chain)} := {s} }}; {r})', rt
         raise TranslateError('assignment target')
 
     def unit_result(self, env):
@@ -1240,7 +1351,7 @@ class Tr:
     def function(self, q):
         f = self.it.fns[q]
         owner = f['owner']
-        env = dict(vars={}, consts={}, owner=owner, n=0)
+        env = dict(vars={}, consts={}, owner=owner, n=0, const_fn=f.get('const', False))
         params = []
         if f['selfkind']:
             env['vars']['self'] = ('self_', ('struct', owner)); params.append(f'(self_ : {owner})')
@@ -1261,22 +1372,33 @@ class Tr:
         """`&mut self`: every exit returns (value, self)"""
         def fix_e(e, tail):
             if e[0] == 'return' and e[1] is not None: return ('return', ('tuple_self', e[1]))
+            if e[0] == 'return': return ('return', ('tuple_self', ('unit',)))
             if e[0] == 'if':
-                return ('if', e[1], fix_b(e[2], tail), fix_b(e[3], tail) if e[3] else None)
+                return ('if', e[1], fix_b(e[2], tail), fix_b(e[3], tail) if e[3] else (fix_b([], tail) if tail else None))
             if e[0] == 'block': return ('block', fix_b(e[1], tail))
+            if e[0] == 'match' and tail:
+                return ('match', e[1], [(p, g, ('block', fix_b(b[1] if b[0] == 'block' else [('expr', b, True)], True))) for p, g, b in e[2]])
             if tail: return ('tuple_self', e)
             return e
         def fix_b(ss, tail):
             out = []
             for i, st in enumerate(ss):
                 last = tail and i == len(ss) - 1
-                if st[0] == 'expr': out.append(('expr', fix_e(st[1], last and st[2]), st[2]))
+                if st[0] == 'expr':
+                    is_value = st[2] or st[1][0] in ('if', 'match', 'block', 'return')
+                    out.append(('expr', fix_e(st[1], last and is_value), st[2]))
                 else: out.append(st)
+            if tail and not (ss and ss[-1][0] == 'expr' and (ss[-1][2] or ss[-1][1][0] in ('if', 'match', 'block', 'return'))):
+                out.append(('expr', ('tuple_self', ('unit',)), True))
             return out
         return fix_b(body, True)
 
 
 def _ex_extra(self, e, env, expect=None):
+    if e[0] == 'raw':
+        return e[1], e[2]
+    if e[0] == 'mutcall':
+        return _orig_ex(self, e[1], env, expect)
     if e[0] == 'tuple_vars':
         vals = [env['vars'][v][0] for v in e[1]]
         return (vals[0] if len(vals) == 1 else '(' + ', '.join(vals) + ')'), 'opaque'
@@ -1295,6 +1417,7 @@ Tr.ex = _ex
 
 
 def generate(spec, repo):
+    TYPE_ALIAS.clear(); TYPE_ALIAS.update(spec.get('type_alias', {}))
     items = Items()
     for f in spec['files']:
         path = os.path.join(repo, f)
@@ -1302,37 +1425,65 @@ def generate(spec, repo):
         items.scan(tokenize(open(path).read()))
     tr = Tr(items, spec['namespace'])
     tr.used_consts = []
-    out_fns = []
+    for q in spec.get('consts', []):
+        if q not in items.consts: raise TranslateError('constant not found in the source: ' + q)
+        tr.used_consts.append(q)
+    texts = {}            # qualified name -> Lean definition (functions and constants)
     todo = list(spec['functions'])
-    done = []
-    while todo:
-        q = todo.pop(0)
-        if q in done: continue
+    for q in todo:
         if q not in items.fns: raise TranslateError('function not found in the source: ' + q)
-        before = list(tr.wanted_fns)
-        text = tr.function(q)
-        done.append(q)
-        out_fns.append((q, text, [x for x in tr.wanted_fns if x not in before or True]))
-        for x in tr.wanted_fns:
-            if x not in done and x not in todo: todo.append(x)
-    # order: callees first
+    progress = True
+    while progress:
+        progress = False
+        for q in list(todo) + [x for x in tr.wanted_fns if x not in todo]:
+            if q in texts: continue
+            texts[q] = tr.function(q); progress = True
+        for q in list(tr.used_consts):
+            if q in texts: continue
+            ty, e = items.consts[q]
+            if e is None: raise TranslateError('constant not translatable: ' + q)
+            owner = q.split('::')[0] if '::' in q else None
+            env = dict(vars={}, consts={}, owner=owner, n=0)
+            sx, t = tr.ex(e, env, ty if isinstance(ty, str) else None)
+            texts[q] = f'def {lean_name(q)} : {tr.lean_ty(ty, owner)} := {sx}\n'; progress = True
+    # order: what a definition uses comes first
+    names = list(texts)
     deps = {}
-    for q, text, _ in out_fns:
-        deps[q] = [x for x in done if x != q and re.search(r'(?<![A-Za-z0-9_.])' + re.escape(lean_name(x)) + r'(?![A-Za-z0-9_\'])', text.split(':=', 1)[1])]
+    for q in names:
+        body = texts[q].split(':=', 1)[1]
+        deps[q] = [x for x in names if x != q and re.search(r'(?<![A-Za-z0-9_.])' + re.escape(lean_name(x)) + r"(?![A-Za-z0-9_'.])", body)]
     order, seen = [], set()
     def visit(q, stack=()):
         if q in seen: return
-        if q in stack: raise TranslateError('recursive function ' + q)
+        if q in stack: raise TranslateError('recursive definition ' + q)
         for d in deps[q]: visit(d, stack + (q,))
         seen.add(q); order.append(q)
-    for q in done: visit(q)
-    texts = {q: t for q, t, _ in out_fns}
+    for q in names: visit(q)
     # structs / enums used
     used_structs = []
     alltext = '\n'.join(texts.values())
     for sn in list(items.structs) + list(items.enums):
         if re.search(r'(?<![A-Za-z0-9_.])' + re.escape(sn) + r'(?![A-Za-z0-9_])', alltext) or sn in spec.get('structs', []):
             used_structs.append(sn)
+    # a struct that has another struct as a field comes after it
+    def sdeps(sn):
+        return [ft[1] for _, ft in items.structs.get(sn, []) if isinstance(ft, tuple) and ft[0] == 'struct'] + \
+               [ft[1][1] for _, ft in items.structs.get(sn, []) if isinstance(ft, tuple) and ft[0] == 'option' and isinstance(ft[1], tuple)]
+    changed = True
+    while changed:
+        changed = False
+        for sn in list(used_structs):
+            for d in sdeps(sn):
+                if d in items.structs or d in items.enums:
+                    if d not in used_structs: used_structs.append(d); changed = True
+    sorder, sseen = [], set()
+    def svisit(sn):
+        if sn in sseen: return
+        sseen.add(sn)
+        for d in sdeps(sn):
+            if d in used_structs: svisit(d)
+        sorder.append(sn)
+    for sn in used_structs: svisit(sn)
     L = []
     L.append('/- GENERATED on every run by tools/rs2lean.py from the Rust sources listed below — do not edit.')
     for f in spec['files']: L.append('   ' + f)
@@ -1341,7 +1492,7 @@ def generate(spec, repo):
     L.append('set_option linter.unusedVariables false')
     L.append('namespace FastPasta')
     L.append('namespace ' + spec['namespace'])
-    for sn in used_structs:
+    for sn in sorder:
         if sn in items.enums:
             L.append(f'inductive {sn} where')
             for vn, payload in items.enums[sn]:
@@ -1357,25 +1508,6 @@ def generate(spec, repo):
                 for f, ft in fs:
                     L.append(f'  {tr.fld(f)} : {tr.lean_ty(ft, sn)}')
                 L.append('  deriving DecidableEq, Repr')
-    # constants (after structs, before functions); a constant may use other constants
-    emitted = []
-    def emit_const(q):
-        if q in emitted: return
-        ty, e = items.consts[q]
-        if e is None: raise TranslateError('constant not translatable: ' + q)
-        owner = q.split('::')[0] if '::' in q else None
-        env = dict(vars={}, consts={}, owner=owner, n=0)
-        n0 = len(tr.used_consts)
-        s, t = tr.ex(e, env, ty if isinstance(ty, str) else None)
-        for q2 in tr.used_consts[n0:]: emit_const(q2)
-        emitted.append(q)
-        L.append(f'def {lean_name(q)} : {tr.lean_ty(ty, owner)} := {s}')
-    for q in spec.get('consts', []):
-        if q not in items.consts: raise TranslateError('constant not found in the source: ' + q)
-        if q not in tr.used_consts: tr.used_consts.append(q)
-    i = 0
-    while i < len(tr.used_consts):
-        emit_const(tr.used_consts[i]); i += 1
     for q in order:
         L.append(texts[q])
     L.append('/-! kernel-checked: every literal mask was split into contiguous runs correctly -/')
